@@ -222,3 +222,76 @@ func c11Roots(c *Ctx) {
 	}
 	c.R.Cond(ok && n > 0, rule, name+": returns the map keys", c.P.Pos(fn.Pos()), "every appended element is a key of DB.mergedRoots", "Roots() returns something other than the keys of DB.mergedRoots")
 }
+
+// ---- C11.empty-version: the empty version list is a version, "absent" is nil -------------------
+
+func init() {
+	register(&Rule{Name: "C11.empty-version", Min: 2, Run: c11EmptyVersion,
+		Doc: "'no explicit version set' is decided by a nil test, never by a length test: [] is the version of an empty table"})
+	byProp["C11"] = append(byProp["C11"], "C11.empty-version", "C03.retire")
+	explain["C11"] += " Also: empty-version (the version list [] that s3db_version returns for a never-written table is a snapshot like any other: the decision to list current/ or to diff against the live table must be a nil test, not a length test) and retire (shared with C03: a version leaves current/ only after its copy to merged/ succeeded, so its name keeps denoting an object)."
+	byProp["C12"] = append(byProp["C12"], "C11.empty-version")
+}
+
+func c11EmptyVersion(c *Ctx) {
+	const rule = "C11.empty-version"
+	open := mustFunc(c, "kv", "", "Open")
+	listRoots := mustFunc(c, "kv", "", "listRoots")
+	ov := mustField(c, "kv", "OpenOptions", "OnlyVersions")
+	if open != nil && listRoots != nil && ov != nil {
+		n := 0
+		for _, call := range an.Calls(open) {
+			if call.Common().StaticCallee() != listRoots {
+				continue
+			}
+			n++
+			g := an.GuardedByNilTest(an.Edge{From: call.Block()}, func(v ssa.Value) bool { return an.FieldOfLoad(v) == ov }, true)
+			c.R.Cond(g, rule, "kv.Open: lists current/ only when OnlyVersions is nil", c.P.Pos(call.Pos()),
+				"listing is chosen by 'OnlyVersions == nil'", "the choice between listing current/ and opening the given versions is not a nil test of OnlyVersions: the empty list [] (version of an empty table) would be opened as 'whatever is current'")
+		}
+		if n == 0 {
+			c.R.Unk(rule, "kv.Open: lists current/ only when OnlyVersions is nil", c.P.Pos(open.Pos()), "no listRoots call in Open")
+		}
+	}
+	// s3db_changes: the live table stands in for 'from' only when fromVer is nil
+	co := mustFunc(c, "sqlite", "*ChangesTable", "Open")
+	fromVer := mustField(c, "sqlite", "ChangesTable", "fromVer")
+	vtTree := mustField(c, "", "VirtualTable", "Tree")
+	if co == nil || fromVer == nil || vtTree == nil {
+		return
+	}
+	found := false
+	for _, call := range an.Calls(co) {
+		if !an.CalleeIs(call, kvPkg, "DB", "StartDiff") {
+			continue
+		}
+		other := call.Common().Args[len(call.Common().Args)-1] // from.Root
+		// find the *KV value it is loaded from
+		var kvVal ssa.Value
+		if ld, ok := other.(*ssa.UnOp); ok {
+			if fa, ok := ld.X.(*ssa.FieldAddr); ok {
+				kvVal = fa.X
+			}
+		}
+		ph, isPhi := kvVal.(*ssa.Phi)
+		if !isPhi {
+			if kvVal != nil && an.FieldOfLoad(kvVal) == vtTree {
+				found = true
+				c.R.Bad(rule, "(*sqlite.ChangesTable).Open: live table as 'from' only when fromVer is nil", c.P.Pos(call.Pos()), "the diff is always taken against the live table")
+			}
+			continue
+		}
+		for i, e := range ph.Edges {
+			if an.FieldOfLoad(e) != vtTree {
+				continue
+			}
+			found = true
+			g := an.GuardedByNilTest(an.Edge{From: ph.Block().Preds[i], To: ph.Block()}, func(v ssa.Value) bool { return an.FieldOfLoad(v) == fromVer }, true)
+			c.R.Cond(g, rule, "(*sqlite.ChangesTable).Open: live table as 'from' only when fromVer is nil", c.P.Pos(call.Pos()),
+				"the live table stands in only for an absent from", "the live table is used as 'from' on a path not decided by 'fromVer == nil': from='[]' (empty table) would be diffed against the current contents and report nothing")
+		}
+	}
+	if !found {
+		c.R.Unk(rule, "(*sqlite.ChangesTable).Open: live table as 'from' only when fromVer is nil", c.P.Pos(co.Pos()), "cannot find where the live table is chosen as the diff base")
+	}
+}
